@@ -120,15 +120,21 @@ class Side:
         return self.sim.get(self.pc, "signalingState")
 
 
-def exchange(sim: PCSim, a: Side, b: Side) -> Tuple[str, str]:
-    """a offers, b answers; returns the two SDP texts"""
+def exchange(sim: PCSim, a: Side, b: Side, edit: Any = None, first: Any = None) -> Tuple[str, str]:
+    """a offers, b answers; returns the two SDP texts.  `edit` rewrites the offer text on its way to b (an offerer with other codec parameters);
+    `first` is called after the first offer was applied locally and returns once a has made a second offer (re-offer while the first is pending)."""
     offer = sim.call(a.pc, "createOffer")
     sim.call(a.pc, "setLocalDescription", offer)
-    sim.call(b.pc, "setRemoteDescription", sim.desc("offer", offer.sdp))
+    if first is not None:
+        first(offer.sdp)
+        offer = sim.call(a.pc, "createOffer")
+        sim.call(a.pc, "setLocalDescription", offer)
+    text = edit(offer.sdp) if edit else offer.sdp
+    sim.call(b.pc, "setRemoteDescription", sim.desc("offer", text))
     answer = sim.call(b.pc, "createAnswer")
     sim.call(b.pc, "setLocalDescription", answer)
     sim.call(a.pc, "setRemoteDescription", sim.desc("answer", answer.sdp))
-    return offer.sdp, answer.sdp
+    return text, answer.sdp
 
 
 def check_exchange(sim: PCSim, a: Side, b: Side, offer_text: str, answer_text: str, prior: Optional[Tuple[list, list]] = None) -> List[str]:
@@ -276,7 +282,7 @@ def configurations(tier: str) -> List[Tuple[str, dict]]:
     out: List[Tuple[str, dict]] = []
 
     def cfg(label: str, **kw: Any) -> None:
-        base = dict(offer=[], offer_data=False, offer_policy="balanced", answer=[], answer_data=False, answer_policy="balanced", prefs=None, follow=None)
+        base = dict(offer=[], offer_data=False, offer_policy="balanced", answer=[], answer_data=False, answer_policy="balanced", prefs=None, follow=None, edit=None, edit_re=None, expect_codec=None)
         base.update(kw)
         out.append((label, base))
     # single section, every direction pair
@@ -309,6 +315,12 @@ def configurations(tier: str) -> List[Tuple[str, dict]]:
                         ("audio", ["audio/PCMU"]), ("audio", ["audio/PCMA", "audio/opus"]), ("audio", ["audio/G722"])):
         cfg(f"offerer {kind} prefers {names}", offer=[("tx", kind, "sendrecv")], prefs=("offer", names))
         cfg(f"answerer {kind} prefers {names}", offer=[("tx", kind, "sendrecv")], answer=[("tx", kind, "sendrecv")], prefs=("answer", names))
+    # an offer from elsewhere: the same H.264 profile at another level (only the profile has to match), alone and next to VP8
+    cfg("H.264-only offer at level 4.0 (profile-level-id 42e028)", offer=[("tx", "video", "sendrecv")], prefs=("offer", ["video/H264"]), edit=("42e01f", "42e028"), expect_codec="h264")
+    cfg("VP8 + H.264 offer, H.264 at level 5.1 (42e033 / 420033)", offer=[("tx", "video", "sendrecv")], edit_re=(r"profile-level-id=42(e0|00)1f", r"profile-level-id=42\g<1>33"), expect_codec="h264")
+    # a second offer while the first one is still pending
+    cfg("audio offered, then video and data added and offered again before any answer", offer=[("tx", "audio", "sendrecv")], follow=("pending", [("tx", "video", "sendrecv")], True))
+    cfg("data offered, then audio added and offered again before any answer", offer_data=True, follow=("pending", [("track", "audio", "sendrecv")], False))
     # follow-up negotiations
     cfg("audio, then the offerer adds video", offer=[("tx", "audio", "sendrecv")], follow=("same", [("tx", "video", "sendrecv")], False))
     cfg("audio, then the offerer adds a data channel", offer=[("tx", "audio", "sendrecv")], follow=("same", [], True))
@@ -350,8 +362,33 @@ def run_config(sim: PCSim, c: dict) -> List[str]:
             set_prefs(sim, t, c["prefs"][1])
     if c["answer_data"]:
         sim.call(b.pc, "createDataChannel", "other")
-    o, n = exchange(sim, a, b)
-    bad = check_exchange(sim, a, b, o, n)
+    edit = None
+    if c["edit"] or c["edit_re"]:
+        def edit(t: str) -> str:
+            t2 = t.replace(*c["edit"]) if c["edit"] else re.sub(c["edit_re"][0], c["edit_re"][1], t)
+            if t2 == t:
+                raise AnalysisError(f"pcnego: the offer text has nothing to edit for {c['edit'] or c['edit_re']}")
+            return t2
+    first = None
+    first_offer: List[str] = []
+    if c["follow"] and c["follow"][0] == "pending":
+        def first(text: str) -> None:
+            first_offer.append(text)
+            for how, kind, d in c["follow"][1]:
+                a.add(how, kind, d)
+            if c["follow"][2]:
+                sim.call(a.pc, "createDataChannel", "later")
+    o, n = exchange(sim, a, b, edit, first)
+    bad = check_exchange(sim, a, b, o, n, ([m.mid for m in read_sdp(first_offer[0]).media], None) if first_offer else None)
+    if first_offer and not bad:
+        want_n = len(read_sdp(first_offer[0]).media) + len(c["follow"][1]) + (1 if c["follow"][2] and not c["offer_data"] else 0)
+        if len(read_sdp(o).media) != want_n:
+            bad.append(f"the second offer (made while the first was pending) has {len(read_sdp(o).media)} sections; {want_n} expected")
+    if c["expect_codec"] and not bad:
+        for m in read_sdp(n).media:
+            got = [(m.rtpmap.get(pt) or STATIC.get(pt, "?")).split("/")[0].lower() for pt in m.fmts]
+            if c["expect_codec"] not in got:
+                bad.append(f"the answer selects {got}; {c['expect_codec']} was offered and both sides support that profile")
     if c["prefs"] and not bad:
         names = [x.lower() for x in c["prefs"][1]]
         for m in read_sdp(n).media:
@@ -362,7 +399,7 @@ def run_config(sim: PCSim, c: dict) -> List[str]:
             first = [g for g in got if g != "rtx"]
             if first and first[0] != [x for x in allowed if x != "rtx"][0] and c["prefs"][0] == "offer":
                 bad.append(f"codec preferences {c['prefs'][1]} on the offerer: the answer's first codec is {first[0]}")
-    if c["follow"] and not bad:
+    if c["follow"] and c["follow"][0] != "pending" and not bad:
         mode, extra, data = c["follow"]
         x, y = (a, b) if mode == "same" else (b, a)
         for how, kind, d in extra:
